@@ -36,11 +36,16 @@ pub fn leaves(dbg: &str) -> Vec<Value> {
             let word: String = cs[i..j].iter().collect();
             // field name?
             if j < cs.len() && cs[j] == ':' { i = j + 1; continue; }
-            if word == "Token" && j < cs.len() && cs[j] == '(' {
-                let mut k = j + 1; let mut num = String::new();
-                while k < cs.len() && cs[k] != ')' { num.push(cs[k]); k += 1; }
-                out.push(json!({"t": num.trim().parse::<u64>().unwrap_or(999_999)}));
-                i = k + 1; continue;
+            if word == "Token" && j < cs.len() && (cs[j] == '(' || cs[j] == '<' || cs[j] == '#' || cs[j] == ' ' || cs[j] == '{') {
+                // the index is what counts, however a token spells itself: Token(3), Token<Type>#3, Token { index: 3 } ...
+                let mut k = j;
+                if cs[k] == '<' { let mut depth = 0; while k < cs.len() { if cs[k] == '<' { depth += 1; } if cs[k] == '>' { depth -= 1; if depth == 0 { k += 1; break; } } k += 1; } }
+                while k < cs.len() && !cs[k].is_ascii_digit() && (cs[k] == '(' || cs[k] == '#' || cs[k] == ' ' || cs[k] == '{' || cs[k] == ':' || cs[k] == '=' || cs[k].is_alphabetic() || cs[k] == '_') { k += 1; }
+                let mut num = String::new();
+                while k < cs.len() && cs[k].is_ascii_digit() { num.push(cs[k]); k += 1; }
+                while k < cs.len() && (cs[k] == ' ' || cs[k] == ')' || cs[k] == '}') { let closing = cs[k] != ' '; k += 1; if closing { break; } }
+                out.push(json!({"t": num.parse::<u64>().unwrap_or(999_999)}));
+                i = k; continue;
             }
             if word == "Some" || word == "None" { i = j; continue; }
             // bit-flag group: Name(A | B) or Name(0x0)
